@@ -281,7 +281,7 @@ impl Script {
         Script::nest_conditionals_at(bits, true)
     }
 
-    fn nest_conditionals_at(bits: Vec<ScriptBit>, top_level: bool) -> Vec<ScriptBit> {
+    pub(crate) fn nest_conditionals_at(bits: Vec<ScriptBit>, top_level: bool) -> Vec<ScriptBit> {
         // the first OP_RETURN outside every conditional (inside a branch an OP_RETURN ends nothing of the grammar)
         let mut depth = 0usize;
         let top_level_return = bits.iter().position(|bit| match bit {
